@@ -78,6 +78,8 @@ SUITE = {
     "C15": ("history", "every stored iteration keeps the digest it was saved with, verified at later Save_Iter / Set_Iter calls; the entry just saved holds the live primary fields"),
     "C17": ("phasefield", "the two parts returned by a split are finite and add up to the undamaged stress / energy; between consecutive saved steps the history energy (History) and the nodal damage (damage-based solvers) do not decrease - incl. the repository's crack-propagation examples, ~900 saved steps"),
     "C08": ("location", "the reference coordinates returned by the point location reproduce the query point through the element's own shape functions and nodes (thorough tier, repository tests only)"),
+    "C09": ("loads", "constant distributed loads on straight-sided linear elements: the nodal forces a call adds sum, per unknown, to intensity x measure of the loaded region (from the element vertices) x thickness where the call applies it"),
+    "C16": ("results", "displacement components and norm are those of the solution held; stress-like results come with one value per node or per element as asked"),
     "C11": ("law", "every freshly updated elastic law is symmetric, positive definite, C.S = I"),
     "C12": ("fearray", "FeArray @ / dot / ddot between two fields equal the per-point product at sampled points, result typed as a field"),
     "C14": ("stale", "matrices served from a simulation's cache equal those a deep copy told that everything changed assembles anew - while a fault injector re-assigns, before every other solve of the workload, one numeric parameter of the model / material / beams through its public attribute with a relative change of 1e-6"),
